@@ -355,6 +355,13 @@ func (w *twkbWriter) writeMultiPoint(mp MultiPoint) error {
 	w.writeInitialHeaders()
 
 	numPoints := mp.NumPoints()
+	for i := 0; i < numPoints; i++ {
+		if mp.PointN(i).IsEmpty() {
+			// TWKB has no way to express an empty Point inside a non-empty
+			// MultiPoint. Refuse rather than inventing coordinates for it.
+			return fmt.Errorf("cannot encode empty Point at index %d of a non-empty MultiPoint", i)
+		}
+	}
 	w.writeUnsignedVarint(uint64(numPoints))
 
 	if err := w.writeIDList(numPoints); err != nil {
